@@ -45,6 +45,8 @@ CONFIGS = {
     "inferred-genes": dict(n_chroms=2, extra=[], complete=False, fresh_home=True),     # no cached conversion: the killed runs convert, too
     # one run over two experiments (--bam_list): crash points of the first experiment, between the experiments and of the second one
     "two-experiments": dict(n_chroms=2, extra=[], experiments=("EXA", "EXB")),
+    # the stages a run leaves out leave files out as well: quantification only, grouped by a BAM tag, with exon / intron tables
+    "no-model-construction": dict(n_chroms=2, extra=["--no_model_construction", "--count_exons", "--read_group", "tag:RG"]),
     # many options away from their defaults, among them list-valued and derived ones: what .params stores is read back and every derived
     # setting is derived again by the resumed run
     "many-options": dict(n_chroms=2, extra=["--bam_tags", "RG,NM", "--matching_strategy", "precise", "--model_construction_strategy", "sensitive_ont",
@@ -95,7 +97,7 @@ def run(chk, scratch):
                 "directory of a -t 1 run, after .params was written; the run is killed (os._exit) immediately before it and continued with --resume (every second point with --threads 3); "
                 "quick: every distinct call site (function, operation, file kind) of 2 configurations once + random fill; thorough: every crash "
                 "point of every configuration + multi-process kills. non-trivial = distinct call sites crashed at")
-    conf_names = list(CONFIGS) if thorough else ["multi-chrom-groups-exons", "annotation-free", "force-over-previous-run", "from-saved-assignments", "two-experiments", "inferred-genes", "file-name-groups-one-file", "many-options"]
+    conf_names = list(CONFIGS) if thorough else ["multi-chrom-groups-exons", "annotation-free", "force-over-previous-run", "from-saved-assignments", "two-experiments", "inferred-genes", "file-name-groups-one-file", "many-options", "no-model-construction"]
     total_points = 0
     executed = 0
     sites_seen = set()
